@@ -34,6 +34,11 @@ def fingerprints(prop: str, n: int, workers: int, tier: str = "quick", batch: in
     check, engine = _module(prop)
     from dst.c20.engine import run_seed
 
+    if prop == "C20":
+        from dst.c20 import reach
+
+        reach.compute()
+
     idx = list(range(n))
     if prop == "C09":  # half systematic prefix, half random histories (beyond the prefix)
         idx = list(range(0, 40000, max(1, 40000 // (n // 2)))) [: n // 2] + list(range(60000, 60000 + n - n // 2))
